@@ -1,4 +1,6 @@
 import Pun.Lemmas.Param
+import Mathlib.Tactic.Ring
+import Mathlib.Tactic.NormNum
 /-!
 # C09 — a parametric p-box encloses every distribution of its parameter box
 
@@ -397,24 +399,31 @@ theorem parse_bad_arity (a b c d : Rat) (t : List Rat) :
     parseParam (.seq []) = .error .Type ∧ parseParam (.seq (a :: b :: c :: d :: t)) = .error .Type ∧
     parseParam .other = .error .Type := ⟨rfl, rfl, rfl⟩
 
-/-- every accepted parameter that went through the `lo ≤ hi` check is an ordered interval -/
-theorem parse_checked_ordered (p : PSpec) (i : PIv) (h : parseParam p = .ok i) (hc : i.checked = true) : i.lo ≤ i.hi := by
+/-- every accepted parameter that went through the `lo ≤ hi` check is an ordered interval
+    (an `Interval` object handed in directly is ordered by its own constructor: `hI`) -/
+theorem parse_checked_ordered (p : PSpec) (i : PIv) (h : parseParam p = .ok i) (hc : i.checked = true)
+    (hI : ∀ lo hi, p = .ivl lo hi → lo ≤ hi) : i.lo ≤ i.hi := by
   have mk : ∀ a b : Rat, mkInterval a b = .ok i → i.lo ≤ i.hi := by
     intro a b hm
     unfold mkInterval at hm
     by_cases hab : a ≤ b
     · rw [if_pos hab] at hm; injection hm with hm; subst hm; exact hab
     · rw [if_neg hab] at hm; cases hm
-  match p, h with
-  | .num x, h => injection h with h; subst h; exact le_refl _
-  | .ivl lo hi, h => injection h with h; subst h; simp at hc ⊢; sorry_placeholder
-  | .seq [x], h => injection h with h; subst h; exact le_refl _
-  | .seq [a, b], h => exact mk a b h
-  | .seq [a, b, c], h => by
-    simp only [parseParam] at h
-    by_cases hc0 : c ≠ 0
-    · rw [if_pos hc0] at h; exact mk a b h
-    · rw [if_neg hc0] at h; injection h with h; subst h; simp at hc
+  cases p with
+  | num x => injection h with h; subst h; exact le_refl _
+  | ivl lo hi => injection h with h; subst h; exact hI lo hi rfl
+  | other => cases h
+  | seq xs =>
+    match xs, h with
+    | [], h => cases h
+    | [x], h => injection h with h; subst h; exact le_refl _
+    | [a, b], h => exact mk a b h
+    | [a, b, c], h =>
+      simp only [parseParam] at h
+      by_cases hc0 : c ≠ 0
+      · rw [if_pos hc0] at h; exact mk a b h
+      · rw [if_neg hc0] at h; injection h with h; subst h; simp at hc
+    | _ :: _ :: _ :: _ :: _, h => cases h
 
 /-- a call with two-element lists for every positional parameter denotes exactly that box -/
 theorem boxOf_pairs : ∀ (b : List (Rat × Rat)), (∀ p ∈ b, p.1 ≤ p.2) →
@@ -624,5 +633,140 @@ theorem uniform_point_degenerate (n : Nat) (pa pb : PSpec) (a b : PIv) (out : Ou
   rcases pboxInit_cases hp with ⟨e1, e2⟩ | ⟨e1, e2, _⟩
   · exact ⟨e1, e2, by rw [h1, h2]⟩
   · exact ⟨e1, e2, by rw [h1, h2]⟩
+
+/-! ## `exponential_by_lambda` -/
+
+/-- ★ the rate-parameterised exponential: rows `z/lo` and `z/hi` (`z ≥ 0` the standard exponential
+    quantiles) bracket `z/λ` for every rate `λ ∈ [lo, hi]`, `lo > 0`; the moment intervals contain
+    `1/λ` and `1/λ²` (after the `fix:`) -/
+theorem ebl_encloses (p : PSpec) (i : PIv) (zs : List Rat) (out : Out) (lam : Rat)
+    (hp : parseParam p = .ok i) (hlo : 0 < i.lo) (hz : ∀ z ∈ zs, 0 ≤ z)
+    (hlam : i.lo ≤ lam ∧ lam ≤ i.hi)
+    (hout : exponentialByLambda p (some (zs.map (· / i.lo))) (some (zs.map (· / i.hi))) = .ok out) :
+    List.Forall₂ (· ≤ ·) out.left (zs.map (· / lam)) ∧ List.Forall₂ (· ≤ ·) (zs.map (· / lam)) out.right ∧
+    (out.meanLo ≤ 1 / lam ∧ 1 / lam ≤ out.meanHi) ∧
+    (out.varLo ≤ 1 / (lam * lam) ∧ 1 / (lam * lam) ≤ out.varHi) := by
+  have hl0 : 0 < lam := lt_of_lt_of_le hlo hlam.1
+  have hhi : 0 < i.hi := lt_of_lt_of_le hl0 hlam.2
+  have hB : List.Forall₂ (· ≤ ·) (zs.map (· / i.hi)) (zs.map (· / lam)) :=
+    forall2_map_map zs _ _ (fun z hzm => div_le_div_of_nonneg_left (hz z hzm) hl0 hlam.2)
+  have hA : List.Forall₂ (· ≤ ·) (zs.map (· / lam)) (zs.map (· / i.lo)) :=
+    forall2_map_map zs _ _ (fun z hzm => div_le_div_of_nonneg_left (hz z hzm) hlo hlam.1)
+  have hm1 : 1 / i.hi ≤ 1 / lam := one_div_le_one_div_of_le hl0 hlam.2
+  have hm2 : 1 / lam ≤ 1 / i.lo := one_div_le_one_div_of_le hlo hlam.1
+  have hv1 : 1 / (i.hi * i.hi) ≤ 1 / (lam * lam) :=
+    one_div_le_one_div_of_le (mul_pos hl0 hl0) (mul_le_mul hlam.2 hlam.2 (le_of_lt hl0) (le_of_lt hhi))
+  have hv2 : 1 / (lam * lam) ≤ 1 / (i.lo * i.lo) :=
+    one_div_le_one_div_of_le (mul_pos hlo hlo) (mul_le_mul hlam.1 hlam.1 (le_of_lt hlo) (le_of_lt hl0))
+  -- `Staircase(a, b)` or `Staircase(b, a)`: either way the result brackets
+  have key : ∀ l r, (pboxInit (zs.map (· / i.lo)) (zs.map (· / i.hi)) = .ok (l, r) ∨
+      pboxInit (zs.map (· / i.hi)) (zs.map (· / i.lo)) = .ok (l, r)) →
+      List.Forall₂ (· ≤ ·) l (zs.map (· / lam)) ∧ List.Forall₂ (· ≤ ·) (zs.map (· / lam)) r := by
+    intro l r h
+    have hge : allGe (zs.map (· / i.lo)) (zs.map (· / i.hi)) = true := allGe_of_forall2 (forall2_le_trans hB hA)
+    rcases h with h | h
+    · unfold pboxInit at h
+      rw [if_pos hge] at h
+      obtain ⟨e1, e2, _⟩ := pboxCheck_ok h
+      rw [e1, e2]; exact ⟨hB, hA⟩
+    · exact pboxInit_brackets h hB hA
+  simp only [exponentialByLambda, hp, hlo, hhi, and_self, if_true] at hout
+  split at hout
+  · cases hout
+  · split at hout
+    · cases hout
+    · simp only [staircaseO] at hout
+      cases h1 : pboxInit (zs.map (· / i.lo)) (zs.map (· / i.hi)) with
+      | ok lr =>
+        obtain ⟨l, r⟩ := lr
+        rw [h1] at hout
+        injection hout with hout
+        subst hout
+        obtain ⟨k1, k2⟩ := key l r (Or.inl h1)
+        exact ⟨k1, k2, ⟨hm1, hm2⟩, ⟨hv1, hv2⟩⟩
+      | error e =>
+        rw [h1] at hout
+        cases h2 : pboxInit (zs.map (· / i.hi)) (zs.map (· / i.lo)) with
+        | ok lr =>
+          obtain ⟨l, r⟩ := lr
+          rw [h2] at hout
+          injection hout with hout
+          subst hout
+          obtain ⟨k1, k2⟩ := key l r (Or.inr h2)
+          exact ⟨k1, k2, ⟨hm1, hm2⟩, ⟨hv1, hv2⟩⟩
+        | error e' => rw [h2] at hout; cases hout
+
+/-! ## non-vacuity: the hypotheses of the theorems above are satisfiable, on the executed model -/
+
+/-- the table the harness builds: one entry per corner -/
+def canonicalTable (b : List (Rat × Rat)) (Qs : List (List Rat → Rat)) (M V : List Rat → Rat) : Table :=
+  (corners b).map fun c => (c, some ⟨rowOf Qs c, M c, V c⟩)
+
+theorem lookup_canonical (E : List Rat → Entry) : ∀ (cs : List (List Rat)) (c : List Rat), c ∈ cs →
+    lookup (cs.map fun c => (c, some (E c))) c = some (some (E c))
+  | c' :: cs, c, hc => by
+    by_cases h : c' = c
+    · subst h; simp [lookup, List.find?_cons]
+    · have hc' : c ∈ cs := by
+        rcases List.mem_cons.mp hc with h' | h'
+        · exact absurd h'.symm h
+        · exact h'
+      have ih := lookup_canonical E cs c hc'
+      simp only [lookup, List.map_cons, List.find?_cons] at ih ⊢
+      have hb : (c' == c) = false := by simpa using h
+      simp only [hb]
+      exact ih
+
+/-- `TableOf` holds for the canonical table of any box and any family -/
+theorem tableOf_canonical (b : List (Rat × Rat)) (Qs : List (List Rat → Rat)) (M V : List Rat → Rat) :
+    TableOf (canonicalTable b Qs M V) b Qs M V :=
+  fun c hc => lookup_canonical (fun c => ⟨rowOf Qs c, M c, V c⟩) (corners b) c hc
+
+/-- a normal-like family at three levels (standard quantiles −1, 0, 1), box μ ∈ [0,1], σ ∈ [1,2] -/
+def exBox : List (Rat × Rat) := [(0, 1), (1, 2)]
+def exQs : List (List Rat → Rat) := [lsQ (-1), lsQ 0, lsQ 1]
+def exPos : List PSpec := [.seq [0, 1], .seq [1, 2]]
+
+example : parametric true exPos [] (canonicalTable exBox exQs (lsQ 0) (lsV 1))
+    = some (.ok ⟨[-2, 0, 1], [0, 1, 3], 0, 1, 1, 4⟩) := by decide +kernel
+
+example : boxOf exPos [] = .ok exBox := by decide +kernel
+example : InBox exBox [1/2, 3/2] := by simp [InBox, exBox]; norm_num
+example : ∀ Q ∈ exQs, CoordMono exBox Q := by
+  intro Q hQ
+  simp only [exQs, List.mem_cons, List.not_mem_nil, or_false] at hQ
+  rcases hQ with rfl | rfl | rfl <;> exact locscale_instance _ exBox (by simp [exBox])
+
+/-- the whole chain on the concrete instance: member (μ,σ) = (1/2, 3/2) is enclosed at the three levels -/
+example : List.Forall₂ (· ≤ ·) [-2, 0, 1] (rowOf exQs [1/2, 3/2]) ∧ List.Forall₂ (· ≤ ·) (rowOf exQs [1/2, 3/2]) [0, 1, 3] :=
+  envelope_encloses exPos [] _ exBox exQs (lsQ 0) (lsV 1) [1/2, 3/2] ⟨[-2, 0, 1], [0, 1, 3], 0, 1, 1, 4⟩
+    (by decide +kernel) (tableOf_canonical _ _ _ _)
+    (by
+      intro Q hQ
+      simp only [exQs, List.mem_cons, List.not_mem_nil, or_false] at hQ
+      rcases hQ with rfl | rfl | rfl <;> exact locscale_instance _ exBox (by simp [exBox]))
+    (by simp [InBox, exBox]; norm_num) (by decide +kernel)
+
+/-- point parameters on the executed model: left = right = the quantile row -/
+example : parametric true [.num 3, .seq [2]] [] (canonicalTable [(3, 3), (2, 2)] exQs (lsQ 0) (lsV 1))
+    = some (.ok ⟨[1, 3, 5], [1, 3, 5], 3, 3, 4, 4⟩) := by decide +kernel
+
+/-- bespoke uniform on the executed model (n = 5): lines over i/(n−1), exact moments -/
+example : uniform 5 (.seq [0, 1]) (.seq [2, 3]) = .ok ⟨[0, 1/2, 1, 3/2, 2], [1, 3/2, 2, 5/2, 3], 1, 2, 1/12, 3/4⟩ := by
+  decide +kernel
+
+/-- error branches of the executed model -/
+example : uniform 5 (.seq [2, 3]) (.seq [0, 1]) = .error .Other := by decide +kernel
+example : parametric true [.seq [2, 1]] [] [] = some (.error .Assertion) := by decide +kernel
+example : parametric true [.seq [1, 2, 0]] [] [] = some (.error .Attribute) := by decide +kernel
+example : parametric false [.seq [1, 2]] [] [] = some (.error .Type) := by decide +kernel
+
+/-- `exponential_by_lambda` on the executed model: rates [1,2], standard quantiles 0, 1, 2 -/
+example : exponentialByLambda (.seq [1, 2]) (some ([0, 1, 2].map (· / 1))) (some ([0, 1, 2].map (· / 2)))
+    = .ok ⟨[0, 1/2, 1], [0, 1, 2], 1/2, 1, 1/4, 1⟩ := by decide +kernel
+
+/-- the gamma hypotheses are satisfiable (e.g. `g a = a`, shape in [1,2], scale in [1,3]) -/
+example : CoordMono [(1, 2), (0, 1), (1, 3)] (gamQ id) :=
+  gamma_mean_instance 1 2 0 1 1 3 (by norm_num) (by norm_num)
 
 end Pun.Param
